@@ -91,37 +91,65 @@ func leanTable(t [][]encodings.VerifEntry) string {
 	return b.String()
 }
 
-// hasLenGuard reports whether the function body contains `if <ident> > len(str) { return … }`.
+// isLenGuard reports whether st is `if <ident> > len(str) { …; return … }`.
+func isLenGuard(st ast.Stmt) bool {
+	is, ok := st.(*ast.IfStmt)
+	if !ok || is.Init != nil || is.Else != nil {
+		return false
+	}
+	be, ok := is.Cond.(*ast.BinaryExpr)
+	if !ok || be.Op != token.GTR {
+		return false
+	}
+	if _, ok := be.X.(*ast.Ident); !ok {
+		return false
+	}
+	call, ok := be.Y.(*ast.CallExpr)
+	if !ok || len(call.Args) != 1 {
+		return false
+	}
+	if f, ok := call.Fun.(*ast.Ident); !ok || f.Name != "len" {
+		return false
+	}
+	if a, ok := call.Args[0].(*ast.Ident); !ok || a.Name != "str" {
+		return false
+	}
+	for _, s := range is.Body.List {
+		if _, ok := s.(*ast.ReturnStmt); ok {
+			return true
+		}
+	}
+	return false
+}
+
+// hasLenGuard reports whether the inner search loop (`for ; n <= …; n++`) of the function checks
+// `if n > len(str) { return … }` before the first statement that slices `str`.
 func hasLenGuard(fd *ast.FuncDecl) bool {
 	found := false
 	ast.Inspect(fd.Body, func(n ast.Node) bool {
-		is, ok := n.(*ast.IfStmt)
-		if !ok {
+		fs, ok := n.(*ast.ForStmt)
+		if !ok || fs.Cond == nil || fs.Post == nil {
 			return true
 		}
-		be, ok := is.Cond.(*ast.BinaryExpr)
-		if !ok || be.Op != token.GTR {
-			return true
-		}
-		if _, ok := be.X.(*ast.Ident); !ok {
-			return true
-		}
-		call, ok := be.Y.(*ast.CallExpr)
-		if !ok || len(call.Args) != 1 {
-			return true
-		}
-		if f, ok := call.Fun.(*ast.Ident); !ok || f.Name != "len" {
-			return true
-		}
-		if a, ok := call.Args[0].(*ast.Ident); !ok || a.Name != "str" {
-			return true
-		}
-		for _, s := range is.Body.List {
-			if _, ok := s.(*ast.ReturnStmt); ok {
+		for _, st := range fs.Body.List {
+			if isLenGuard(st) {
 				found = true
+				return false
+			}
+			slices := false
+			ast.Inspect(st, func(m ast.Node) bool {
+				if se, ok := m.(*ast.SliceExpr); ok {
+					if id, ok := se.X.(*ast.Ident); ok && id.Name == "str" {
+						slices = true
+					}
+				}
+				return true
+			})
+			if slices {
+				return false // `str[:n]` is reached without the guard
 			}
 		}
-		return true
+		return false
 	})
 	return found
 }
@@ -365,7 +393,8 @@ func run(a hx.RunArgs) error {
 		out.Stat("enc=" + []string{"fail", "ok", "crash"}[got.tag])
 		// oracle: no crash; success ⇒ decodes back; all characters representable ⇒ success
 		if got.tag == tagCrash {
-			out.OracleFail(id, "-", fmt.Sprintf("%s.Encode(%x) [cap-len=%d] panics", cs.name, s, len(extra)))
+			// not a listed region (finding encode_unrepresentable_tail was repaired): always a violation
+			out.OracleFail(id, "encode_panics", fmt.Sprintf("%s.Encode(%x) [cap-len=%d] panics", cs.name, s, len(extra)))
 			return
 		}
 		if got.tag == tagOK {
@@ -626,7 +655,8 @@ func run(a hx.RunArgs) error {
 			enc = append(enc, rr.b...)
 		}
 		if conv.tag == tagCrash || hx1.tag == tagCrash || back.tag == tagCrash {
-			out.OracleFail(id, "-", fmt.Sprintf("CONVERT(%s USING %s) / HEX / CONVERT back: a statement panics (%s)", lit, cs.name, obs))
+			// a panic is not part of finding sql_convert_using_not_decoded (any more): own, unlisted tag
+			out.OracleFail(id, "sql_statement_panics", fmt.Sprintf("CONVERT(%s USING %s) / HEX / CONVERT back: a statement panics (%s)", lit, cs.name, obs))
 		} else if all && (back.tag != tagOK || !bytes.Equal(back.b, s) || unhexRes(hx1).String() != (res{tag: tagOK, b: enc}).String()) {
 			out.OracleFail(id, "-", fmt.Sprintf("every character of %s is representable in %s, but HEX(CONVERT)=%s (want %x) and CONVERT back=%s", lit, cs.name, hx1, enc, back))
 		}
@@ -673,7 +703,8 @@ func run(a hx.RunArgs) error {
 			enc = append(enc, rr.b...)
 		}
 		if insObs == "crash" || hx1.tag == tagCrash || ln.tag == tagCrash || val.tag == tagCrash {
-			out.OracleFail(id, "-", fmt.Sprintf("column CHARACTER SET %s holding %s: a statement panics (%s)", cs.name, lit, obs))
+			// a panic is not part of finding sql_unrepresentable_stored (any more): own, unlisted tag
+			out.OracleFail(id, "sql_statement_panics", fmt.Sprintf("column CHARACTER SET %s holding %s: a statement panics (%s)", cs.name, lit, obs))
 		} else if all && (insObs != "ok" || unhexRes(hx1).String() != (res{tag: tagOK, b: enc}).String() || lnObs != fmt.Sprint(len(enc)) || val.tag != tagOK || !bytes.Equal(val.b, s)) {
 			out.OracleFail(id, "-", fmt.Sprintf("column CHARACTER SET %s holding representable %s: %s (want hex %x)", cs.name, lit, obs, enc))
 		} else if !all && insObs == "ok" && val.tag == tagOK && bytes.Equal(val.b, s) {
@@ -683,14 +714,16 @@ func run(a hx.RunArgs) error {
 
 	// --- corpus: witnesses and regression cases first ----------------------------------------
 	if cs, ok := byName["latin1"]; ok {
-		encCase(cs, []byte("\xe9"), nil)         // F-C30-a: HEX(CONVERT('é' USING latin1)) reaches this
-		encCase(cs, []byte("\xc4\x80"), nil)     // unrepresentable character at the end of the string
-		encCase(cs, []byte("a\xc4\x80b"), nil)   // … one byte before the end
-		encCase(cs, []byte("\xc4\x80abc"), nil)  // … far enough from the end: reported
-		encCase(cs, []byte("\xc4"), []byte{0x80, 0, 0}) // spare capacity: reads past the slice
-		encCase(cs, []byte("\xc3"), []byte{0xa9}) // spare capacity completes a representable unit
+		// witnesses of the repaired finding encode_unrepresentable_tail (F-C30-a): these panicked before
+		// the fix: commit (`slice bounds out of range`) and must now report failure
+		encCase(cs, []byte("\xe9"), nil)                // HEX(CONVERT('é' USING latin1)) reaches this
+		encCase(cs, []byte("\xc4\x80"), nil)            // unrepresentable character at the end of the string
+		encCase(cs, []byte("a\xc4\x80b"), nil)          // … one byte before the end
+		encCase(cs, []byte("\xc4\x80abc"), nil)         // … far enough from the end: reported (before and after)
+		encCase(cs, []byte("\xc4"), []byte{0x80, 0, 0}) // spare capacity: the pre-fix loop read past the slice
+		encCase(cs, []byte("\xc3"), []byte{0xa9})       // spare capacity completes a representable unit (pre-fix: panic at str[2:])
 		encCase(cs, []byte("h\xc3\xa9llo"), nil)
-		repCase(cs, []byte("\xc4\x80b"))   // two characters collapse into one '?'
+		repCase(cs, []byte("\xc4\x80b")) // two characters collapse into one '?'
 		repCase(cs, []byte("\xc4\x80"))
 		repCase(cs, []byte("\xc4\x80abc"))
 		repCase(cs, []byte("\xc4\x80\xc4\x80"))
@@ -712,11 +745,11 @@ func run(a hx.RunArgs) error {
 		decCase(cs, []byte{0, 0, 0xd8, 0})
 	}
 	if cs, ok := byName["latin1"]; ok {
-		sqlConv(cs, []byte("\xc3\xa9"))  // HEX(CONVERT('é' USING latin1)) panics; CONVERT back gives E9, not 'é'
+		sqlConv(cs, []byte("\xc3\xa9"))  // HEX(CONVERT('é' USING latin1)) is an error (pre-fix: panic); CONVERT back gives E9, not 'é'
 		sqlConv(cs, []byte("\xc4\x80b")) // 'Āb' -> '?'
 		sqlConv(cs, []byte("abc"))
 		sqlCol(cs, []byte("\xc3\xa9"))
-		sqlCol(cs, []byte("\xc4\x80")) // stored unchanged; HEX(c), LENGTH(c) panic
+		sqlCol(cs, []byte("\xc4\x80")) // stored unchanged; HEX(c), LENGTH(c) are errors (pre-fix: panic)
 		sqlIntro(cs, []byte{0xe9})
 		sqlIntro(cs, []byte{0x81})
 	}
